@@ -98,6 +98,8 @@ def view_diff(before, after, data, out, spec):
         diffs.append(("trigger count %d -> %d" % (len(ta), len(tb)), None))
     else:
         for i, (x, y) in enumerate(zip(ta, tb)):
+            if x.get("execFlags") != y.get("execFlags"):
+                diffs.append(("trigger %d execution flags %r -> %r" % (i, x.get("execFlags"), y.get("execFlags")), None))
             for part in ("conds", "acts", "players"):
                 if x[part] != y[part]:
                     key = None
@@ -199,6 +201,21 @@ def run(prop, tier, seed):
                     out.violations.append(dict(base, oracle="an editor-form map is rewritten byte-identically", key=None, diff="bytes differ although nothing the game reads changed", first_diff=first_diff(data, res)))
                 for d, key in diffs:
                     out.violations.append(dict(base, oracle="an editor-form map is rewritten byte-identically", key=key, diff=d))
+                # every section that differs must be explained by one of the differences found above
+                explained = {"mrgn-64-slot-table-expanded": {b"MRGN"}, "upus-recomputed-from-uprp": {b"UPUS"}, "unreachable-weapon-damage-zeroed": {b"UNIS", b"UNIx"},
+                             "str-grew-on-unedited-save": {b"STR "}}
+                ok_names = set()
+                for _, key in diffs:
+                    ok_names |= explained.get(key, set())
+                if any(key is None for _, key in diffs):
+                    ok_names = None     # already reported as an unlisted violation
+                ca, cb = refchk.split_chunks(data), refchk.split_chunks(res)
+                if ok_names is not None:
+                    for k, (n, _, p) in enumerate(ca):
+                        if k < len(cb) and cb[k][0] == n and cb[k][2] != p and n not in ok_names:
+                            out.violations.append(dict(base, oracle="an editor-form map is rewritten byte-identically", key=None,
+                                                       diff="section %r differs although nothing the game reads through it changed" % n, first_diff=first_diff(p, cb[k][2])))
+                            break
             if not rl.endswith(" IDEMPOTENT"):
                 out.violations.append(dict(base, oracle="a second load/save cycle reproduces the first cycle's output byte for byte", got=rl[-40:], key=classify_nonidempotent(data, spec)))
         if prop == "C02":
@@ -241,7 +258,9 @@ def probe_maps(gen, spec):
 
     L = refchk.layouts_of(spec)
     out = []
+    gen.force_quiet = True
     base, _ = gen.gen("editor")
+    gen.force_quiet = False
     chunks = [(n, p) for n, _, p in refchk.split_chunks(base)]
 
     def with_sections(repl, extra=()):
